@@ -40,12 +40,13 @@ theorem c16_on_source (wf : Wf) (hac : acyclic wf) (ts : List Nat) (hts : ∀ t 
 
 
 
+
 -- BEGIN PINS (written by bin/mkpins; do not edit by hand)
 /-- the Go functions this property's model and obligations were written against have exactly the
 pinned skeletons (SHA-256 prefix of the atom list) -/
 theorem pinned_skeletons_c16 :
     pinsOk
-    [("Scipipe.#decls", "7633eb8a74616d59"),
+    [("Scipipe.#decls", "08e57e98702ecd70"),
      ("Scipipe.BaseProcess_DeleteInParamPort", "2d3e0aee982e111c"),
      ("Scipipe.BaseProcess_DeleteInPort", "307bc0f4dc52af7c"),
      ("Scipipe.BaseProcess_DeleteOutParamPort", "c10e7aa0567cbb4f"),
